@@ -68,6 +68,9 @@ class OpCode(Enum):
     LG_AND = 0x1_0301
     LG_NOT = 0x1_0302
 
+    VECTOR_LG_OR = 0x1_1300
+    VECTOR_LG_AND = 0x1_1301
+
     BIT_OR = 0x1_0400
     BIT_AND = 0x1_0401
     BIT_NOT = 0x1_0402
@@ -680,6 +683,9 @@ class BinaryInstruction(Instruction):
                 op.Operation.MUL: OpCode.VECTOR_MUL,
                 op.Operation.SUB: OpCode.VECTOR_SUB,
                 op.Operation.DIV: OpCode.VECTOR_DIV,
+                op.Operation.MOD: OpCode.VECTOR_MOD,
+                op.Operation.LG_AND: OpCode.VECTOR_LG_AND,
+                op.Operation.LG_OR: OpCode.VECTOR_LG_OR,
                 op.Operation.CMP_GT: OpCode.VECTOR_CMP_GT,
                 op.Operation.CMP_GE: OpCode.VECTOR_CMP_GE,
                 op.Operation.CMP_LT: OpCode.VECTOR_CMP_LT,
